@@ -98,17 +98,16 @@ theorem loss_zero_of_perfect (eps : Rat) (m : Metric) (a : Args) (out : Out) (hm
 example : call EPS .mdspe { yt := [[1, -2, 0]], yp := [[1, -2, 0]], hw := some [1, 0, 2], sqrt := true }
     = .ok (.avg 2 none [0]) := by decide +kernel
 
-/-- Geometric means without horizon weights at a perfect forecast: every relative error is 0, is floored to `eps`,
-so the radicand is `eps ^ n` with root degree `n` (GMRAE, GMRSE) or `2n` (root GMRSE): the reported value `g` is the
-documented floor, `g ^ n = eps ^ n` resp. `(g*g) ^ n = eps ^ n`.
-FULL STATEMENT (all `horizon_weight`): false in the code, see `gm_weighted_floor_violated`; this is the part with
-`horizon_weight = None`, hence `_partial`. -/
-theorem gm_floor_of_perfect_partial (eps : Rat) (he : 0 < eps) (yt yb : Mat) (mo : MO) (sqrt : Bool) (out : Out)
-    (hRt : Rect yt) (hRb : Rect yb) :
-    (geometricMeanRelativeAbsoluteError eps yt yt yb none mo = .ok out →
-      out.deg = nrows yt ∧ ∀ q ∈ out.qs, IsGMean eps (nrows yt) q) ∧
-    (geometricMeanRelativeSquaredError eps yt yt yb none mo sqrt = .ok out →
-      out.deg = rootDeg sqrt (nrows yt) ∧ ∀ q ∈ out.qs, IsGMean eps (nrows yt) q) := by
+/-- Geometric means at a perfect forecast, with or without horizon weights: every relative error is 0, is floored to
+`eps`, so the radicand is `eps ^ d` under a root of degree `d` (`2d` for root GMRSE), where `d` = number of steps
+(no weights) or the sum of the integer exponents proportional to the weights: the reported value `g` is the documented
+floor, `g ^ d = eps ^ d` resp. `(g*g) ^ d = eps ^ d`.  (Full strength since fix 11fa5f6.) -/
+theorem gm_floor_of_perfect (eps : Rat) (he : 0 < eps) (yt yb : Mat) (hw : Option (List Rat)) (mo : MO) (sqrt : Bool)
+    (out : Out) (hRt : Rect yt) (hRb : Rect yb) :
+    (geometricMeanRelativeAbsoluteError eps yt yt yb hw mo = .ok out →
+      out.deg = gmDeg (nrows yt) hw ∧ ∀ q ∈ out.qs, IsGMean eps (gmDeg (nrows yt) hw) q) ∧
+    (geometricMeanRelativeSquaredError eps yt yt yb hw mo sqrt = .ok out →
+      out.deg = rootDeg sqrt (gmDeg (nrows yt) hw) ∧ ∀ q ∈ out.qs, IsGMean eps (gmDeg (nrows yt) hw) q) := by
   constructor
   · intro h
     obtain ⟨h1, h2⟩ := gmrae_perfect_floor hRt hRb h
@@ -116,6 +115,10 @@ theorem gm_floor_of_perfect_partial (eps : Rat) (he : 0 < eps) (yt yb : Mat) (mo
   · intro h
     obtain ⟨h1, h2⟩ := gmrse_perfect_floor hRt hRb h
     exact ⟨h1, fun q hq => ⟨le_of_lt he, (h2 q hq).symm⟩⟩
+
+/-- regression of the former broadcasting defect: y_true=y_pred=[1,2], benchmark=[0,0], w=[1,3] → EPS⁴ under a 4th root -/
+example : geometricMeanRelativeAbsoluteError EPS [[1, 2]] [[1, 2]] [[0, 0]] (some [1, 3]) .uniform
+    = .ok (.avg 4 none [EPS ^ 4]) := by decide +kernel
 
 example : geometricMeanRelativeSquaredError EPS [[1, 2]] [[1, 2]] [[0, 5]] none .raw true
     = .ok (.raw 4 [EPS ^ 2]) := by decide +kernel
@@ -163,38 +166,23 @@ theorem asym_eq_textbook (thr : Rat) (l r : EF) (t p : Rat) :
 
 /-! ## 4. Class wrappers -/
 
-/-- FULL STATEMENT: each of the 18 metric classes returns exactly what its function returns with the same options.
-Proved for the 8 classes whose function takes (y_true, y_pred) only (`_partial`; defaults `horizon_weight=None`,
-`multioutput="uniform_average"`); false for the other 10, see `class_call_raises`. -/
-theorem class_call_eq_function_partial (eps : Rat) (o : ClsOpts) (yt yp : Mat) :
-    classCall eps .mae o yt yp = meanAbsoluteError yt yp none .uniform ∧
-    classCall eps .mdae o yt yp = medianAbsoluteError yt yp none .uniform ∧
-    classCall eps .mse o yt yp = meanSquaredError yt yp none .uniform o.sqrt ∧
-    classCall eps .mdse o yt yp = medianSquaredError yt yp none .uniform o.sqrt ∧
-    classCall eps .mape o yt yp = meanAbsolutePercentageError eps yt yp none .uniform o.sym ∧
-    classCall eps .mdape o yt yp = medianAbsolutePercentageError eps yt yp none .uniform o.sym ∧
-    classCall eps .mspe o yt yp = meanSquaredPercentageError eps yt yp none .uniform o.sqrt o.sym ∧
-    classCall eps .mdspe o yt yp = medianSquaredPercentageError eps yt yp none .uniform o.sqrt o.sym :=
-  ⟨rfl, rfl, rfl, rfl, rfl, rfl, rfl, rfl⟩
+/-- Each of the 18 metric classes, called as `Cls(**options)(y_true, y_pred, **kwargs)`, returns exactly what its
+function returns with the same options: the stored options the function uses (symmetric, square_root, sp, asymmetric
+threshold and error functions, relative loss function) are all forwarded, and the keyword arguments (y_train,
+y_pred_benchmark, horizon_weight, multioutput) are handed through.  (Full strength since fix acfe904.) -/
+theorem class_call_eq_function (eps : Rat) (c : Metric) (o : ClsOpts) (yt yp : Mat) (kw : Kw) :
+    classCall eps c o yt yp kw =
+      call eps c { yt := yt, yp := yp, yb := kw.yb, ytr := kw.ytr, ix := kw.ix, hw := kw.hw, mo := kw.mo,
+                   sym := o.sym, sqrt := o.sqrt, sp := o.sp, thr := o.thr, l := o.l, r := o.r, rlf := o.rlf } := by
+  cases c <;> rfl
 
-/-- FULL STATEMENT "each metric class returns exactly what its function returns with the same options" is false for
-the other 10 classes: they raise on EVERY input (TypeError: the function misses `y_train` / `y_pred_benchmark`;
-AttributeError: `asymmetric_treshold` / `_relative_func` do not exist) … -/
-theorem class_call_raises (eps : Rat) (o : ClsOpts) (yt yp : Mat) :
-    (∀ m ∈ [Metric.mase, .mdase, .msse, .mdsse, .mrae, .mdrae, .gmrae, .gmrse], classCall eps m o yt yp = .error .type) ∧
-    (∀ m ∈ [Metric.masym, .relloss], classCall eps m o yt yp = .error .attr) := by
-  constructor <;> intro m hm <;> simp only [List.mem_cons, List.mem_nil_iff, or_false] at hm <;>
-    rcases hm with rfl | hm <;> first | rfl | (try rcases hm with rfl | hm) <;> first | rfl | skip
-  all_goals (repeat (first | rfl | (rcases hm with rfl | hm)))
+/-- regression of the former class defects (every one of the ten classes that used to raise now returns a value) -/
+example : ∀ m ∈ [Metric.mase, .mdase, .msse, .mdsse, .mrae, .mdrae, .gmrae, .gmrse, .masym, .relloss],
+    (classCall EPS m { sp := 2 } [[1, 2, 3]] [[3/2, 2, 2]]
+      { yb := some [[2, 1, 4]], ytr := some (.arr [[1, 3, 2, 5]]) }).isOk = true := by decide +kernel
 
-/-- … while the functions they wrap return a value on ordinary input (witness: y_true=[1,2,3], y_pred=[3/2,2,2],
-benchmark=[2,1,4], y_train=[1,3,2,5]). -/
-theorem class_call_differs_witness :
-    ∀ m ∈ [Metric.mase, .mdase, .msse, .mdsse, .mrae, .mdrae, .gmrae, .gmrse, .masym, .relloss],
-      (call EPS m { yt := [[1, 2, 3]], yp := [[3/2, 2, 2]], yb := some [[2, 1, 4]],
-                    ytr := some (.arr [[1, 3, 2, 5]]) }).isOk = true ∧
-      (classCall EPS m {} [[1, 2, 3]] [[3/2, 2, 2]]).isOk = false := by
-  decide +kernel
+/-- a class without the keyword its function needs still raises TypeError (argument binding), as the function does -/
+example : classCall EPS .mase {} [[1, 2, 3]] [[3/2, 2, 2]] {} = .error .type := by decide +kernel
 
 /-! ## 5. Textbook formulas (Spec/Metrics.lean), per output column -/
 
@@ -299,31 +287,45 @@ theorem mdae_univariate_is_median (t p : Col) (mo : MO) (out : Out)
   simp only [absErrs, List.length_zipWith] at this
   omega
 
-/-- The four direct median metrics without horizon weights return, per column, `np.median` of the textbook errors
-(|a−f|, (a−f)², percentage errors and their squares — the latter two while no actual is closer to 0 than eps);
-with `median_reducer_is_median` that value is a median in the textbook sense. -/
-theorem median_metrics_eq_spec (eps : Rat) (he : 0 < eps) (yt yp : Mat) (mo : MO) (sym sqrt : Bool) (out : Out) :
-    (medianAbsoluteError yt yp none mo = .ok out →
-      out.qs = List.zipWith (fun t p => median (Spec.Metrics.absErr t p)) yt yp) ∧
-    (medianSquaredError yt yp none mo sqrt = .ok out →
-      out.qs = List.zipWith (fun t p => median (Spec.Metrics.sqErr t p)) yt yp) ∧
-    ((∀ t ∈ yt, ∀ a ∈ t, eps ≤ |a|) → medianAbsolutePercentageError eps yt yp none mo sym = .ok out →
-      out.qs = List.zipWith (fun t p => median (Spec.Metrics.pctErrs sym t p)) yt yp) ∧
-    ((∀ t ∈ yt, ∀ a ∈ t, eps ≤ |a|) → medianSquaredPercentageError eps yt yp none mo sqrt sym = .ok out →
-      out.qs = List.zipWith (fun t p => median ((Spec.Metrics.pctErrs sym t p).map (· ^ 2))) yt yp) := by
+/-- The four direct median metrics return, per column, the (weighted) median `medianW hw` of the textbook errors
+(|a−f|, (a−f)², percentage errors and their squares — the latter two while no actual is closer to 0 than eps):
+`np.median` without horizon weights (a median in the textbook sense by `median_reducer_is_median`), sklearn's weighted
+percentile with them.  Includes weighted MdAPE for `symmetric=False` (full strength since fix b4ed244). -/
+theorem median_metrics_eq_spec (eps : Rat) (he : 0 < eps) (yt yp : Mat) (hw : Option (List Rat)) (mo : MO)
+    (sym sqrt : Bool) (out : Out) :
+    (medianAbsoluteError yt yp hw mo = .ok out →
+      out.qs = List.zipWith (fun t p => medianW hw (Spec.Metrics.absErr t p)) yt yp) ∧
+    (medianSquaredError yt yp hw mo sqrt = .ok out →
+      out.qs = List.zipWith (fun t p => medianW hw (Spec.Metrics.sqErr t p)) yt yp) ∧
+    ((∀ t ∈ yt, ∀ a ∈ t, eps ≤ |a|) → medianAbsolutePercentageError eps yt yp hw mo sym = .ok out →
+      out.qs = List.zipWith (fun t p => medianW hw (Spec.Metrics.pctErrs sym t p)) yt yp) ∧
+    ((∀ t ∈ yt, ∀ a ∈ t, eps ≤ |a|) → medianSquaredPercentageError eps yt yp hw mo sqrt sym = .ok out →
+      out.qs = List.zipWith (fun t p => medianW hw ((Spec.Metrics.pctErrs sym t p).map (· ^ 2))) yt yp) := by
   refine ⟨fun h => ?_, fun h => ?_, fun hg h => ?_, fun hg h => ?_⟩
   · rw [(finish_ok (mdae_iff.mp h).2.2).1]; congr 1; funext t p
-    simp only [medianW]; rw [absErrs_eq_spec]
+    rw [absErrs_eq_spec]
   · rw [(finish_ok (mdse_iff.mp h).2.2).1]; congr 1; funext t p
-    simp only [medianW]; rw [sqErrs'_eq_spec]
+    rw [sqErrs'_eq_spec]
   · rw [(finish_ok (mdape_iff.mp h).2.2).1]
     apply zipWith_congr_mem
     intro t ht p _
-    simp only [mdapeCol]; rw [pctCol_abs_eq_spec eps he sym t p (hg t ht)]
+    rw [pctCol_abs_eq_spec eps he sym t p (hg t ht)]
   · rw [(finish_ok (mdspe_iff.mp h).2.2).1]
     apply zipWith_congr_mem
     intro t ht p _
-    simp only [medianW]; rw [pctCol_sqr_eq_spec eps he sym t p (hg t ht)]
+    rw [pctCol_sqr_eq_spec eps he sym t p (hg t ht)]
+
+/-- weighted MdAPE = sklearn's weighted percentile of the textbook |percentage errors| of (y_true, y_pred), for
+`symmetric` True and False alike -/
+theorem mdape_weighted_eq_spec (eps : Rat) (he : 0 < eps) (yt yp : Mat) (w : List Rat) (mo : MO) (sym : Bool) (out : Out)
+    (hg : ∀ t ∈ yt, ∀ a ∈ t, eps ≤ |a|) (h : medianAbsolutePercentageError eps yt yp (some w) mo sym = .ok out) :
+    out.deg = 1 ∧ out.qs = List.zipWith (fun t p => wpct w (Spec.Metrics.pctErrs sym t p)) yt yp :=
+  ⟨(finish_ok (mdape_iff.mp h).2.2).2, (median_metrics_eq_spec eps he yt yp (some w) mo sym false out).2.2.1 hg h⟩
+
+/-- regression of the former swapped-argument defect: y_true=[1,2,3,4], y_pred=[3/2,2,2,5], unit weights,
+symmetric=False → 1/4 (the code used to return 1/5) -/
+example : medianAbsolutePercentageError EPS [[1, 2, 3, 4]] [[3/2, 2, 2, 5]] (some [1, 1, 1, 1]) .raw false
+    = .ok (.raw 1 [1/4]) := by decide +kernel
 
 /-- univariate MdASE, MdSSE / root MdSSE (`raw_values`): (weighted) median error over the plain median of the in-sample
 seasonal-naive errors, while the latter is at least eps -/
@@ -375,7 +377,8 @@ theorem direct_metrics (eps : Rat) (sym sqrt : Bool) (thr : Rat) (l r : EF) :
     IsDirect (fun a b h m => medianSquaredError a b h m sqrt) (fun hw t p => medianW hw (sqErrs' t p)) (rootDeg sqrt 1) false ∧
     IsDirect (fun a b h m => meanAbsolutePercentageError eps a b h m sym)
       (fun hw t p => npAverage hw ((pctCol eps sym t p).map absR)) 1 true ∧
-    IsDirect (fun a b h m => medianAbsolutePercentageError eps a b h m sym) (fun hw => mdapeCol eps hw sym) 1 false ∧
+    IsDirect (fun a b h m => medianAbsolutePercentageError eps a b h m sym)
+      (fun hw t p => medianW hw ((pctCol eps sym t p).map absR)) 1 false ∧
     IsDirect (fun a b h m => meanSquaredPercentageError eps a b h m sqrt sym)
       (fun hw t p => npAverage hw ((pctCol eps sym t p).map sqr)) (rootDeg sqrt 1) true ∧
     IsDirect (fun a b h m => medianSquaredPercentageError eps a b h m sqrt sym)
@@ -402,28 +405,32 @@ theorem multioutput_is_per_column {f : Mat → Mat → Option (List Rat) → MO 
 example : meanSquaredError [[1, 2, 3], [2, 1, 5]] [[1, 3, 3], [1, 1, 2]] none (.weights [1, 3]) true
     = .ok (.avg 2 (some [1, 3]) [1/3, 10/3]) := by decide +kernel   -- RMSE per column, then weighted average
 
-/-- The relative-error metrics MRAE, MdRAE (any horizon weights) and GMRAE, GMRSE (without horizon weights — with
-weights the code is defective, see section 8) have the analogous skeleton `IsDirect3` over (y_true, y_pred, benchmark) … -/
+/-- The relative-error metrics MRAE, MdRAE, GMRAE, GMRSE have the analogous skeleton `IsDirect3` over
+(y_true, y_pred, benchmark), for every horizon weighting (geometric means: weights ≥ 0, the modelled domain) … -/
 theorem relative_metrics (eps : Rat) (sqrt : Bool) :
-    IsDirect3 eps (meanRelativeAbsoluteError eps) (fun _ => True) (fun hw re => npAverage hw (re.map absR)) (fun _ => 1) true ∧
-    IsDirect3 eps (medianRelativeAbsoluteError eps) (fun _ => True) (fun hw re => medianW hw (re.map absR)) (fun _ => 1) false ∧
-    IsDirect3 eps (geometricMeanRelativeAbsoluteError eps) (fun hw => hw = none)
-      (fun _ re => prod (re.map (fun e => floorEps eps (absR e)))) (fun n => n) false ∧
-    IsDirect3 eps (fun a b c h m => geometricMeanRelativeSquaredError eps a b c h m sqrt) (fun hw => hw = none)
-      (fun _ re => prod (re.map (fun e => floorEps eps (sqr e)))) (fun n => rootDeg sqrt n) false :=
+    IsDirect3 eps (meanRelativeAbsoluteError eps) (fun _ => True) (fun hw re => npAverage hw (re.map absR)) (fun _ _ => 1) true ∧
+    IsDirect3 eps (medianRelativeAbsoluteError eps) (fun _ => True) (fun hw re => medianW hw (re.map absR)) (fun _ _ => 1) false ∧
+    IsDirect3 eps (geometricMeanRelativeAbsoluteError eps) (fun hw => checkNonneg hw = .ok ())
+      (fun hw re => gmFactor hw (re.map (fun e => floorEps eps (absR e)))) (fun hw n => gmDeg n hw) true ∧
+    IsDirect3 eps (fun a b c h m => geometricMeanRelativeSquaredError eps a b c h m sqrt)
+      (fun hw => checkNonneg hw = .ok ())
+      (fun hw re => gmFactor hw (re.map (fun e => floorEps eps (sqr e)))) (fun hw n => rootDeg sqrt (gmDeg n hw)) true :=
   ⟨isDirect3_mrae eps, isDirect3_mdrae eps, isDirect3_gmrae eps, isDirect3_gmrse eps sqrt⟩
 
 /-- … and for each of them `raw_values` is column-by-column: the j-th value is what the metric returns for
-(y_true[:, j], y_pred[:, j], benchmark[:, j]) alone.
-For GMRAE / GMRSE this is the `_partial` form (hypothesis `hwOk hw`, i.e. no horizon weights). -/
-theorem multioutput_is_per_column_relative_partial {eps : Rat}
+(y_true[:, j], y_pred[:, j], benchmark[:, j]) alone — horizon-weighted geometric means included (since fix 11fa5f6). -/
+theorem multioutput_is_per_column_relative {eps : Rat}
     {f : Mat → Mat → Mat → Option (List Rat) → MO → Except Err Out}
-    {hwOk : Option (List Rat) → Prop} {colf : Option (List Rat) → Col → Rat} {k : Nat → Nat} {ns : Bool}
-    (hd : IsDirect3 eps f hwOk colf k ns) (yt yp yb : Mat) (hw : Option (List Rat)) (hok : hwOk hw) (qs : List Rat)
-    (hRt : Rect yt) (hRp : Rect yp) (hRb : Rect yb) (h : f yt yp yb hw .raw = .ok (.raw (k (nrows yt)) qs))
+    {pre : Option (List Rat) → Prop} {colf : Option (List Rat) → Col → Rat} {k : Option (List Rat) → Nat → Nat}
+    {ns : Bool} (hd : IsDirect3 eps f pre colf k ns) (yt yp yb : Mat) (hw : Option (List Rat)) (qs : List Rat)
+    (hRt : Rect yt) (hRp : Rect yp) (hRb : Rect yb) (h : f yt yp yb hw .raw = .ok (.raw (k hw (nrows yt)) qs))
     (j : Nat) (hjt : j < yt.length) (hjp : j < yp.length) (hjb : j < yb.length) :
-    ∃ hq : j < qs.length, f [yt[j]] [yp[j]] [yb[j]] hw .uniform = .ok (.avg (k (nrows yt)) none [qs[j]]) :=
-  direct3_raw_per_column hd yt yp yb hw hok qs hRt hRp hRb h j hjt hjp hjb
+    ∃ hq : j < qs.length, f [yt[j]] [yp[j]] [yb[j]] hw .uniform = .ok (.avg (k hw (nrows yt)) none [qs[j]]) :=
+  direct3_raw_per_column hd yt yp yb hw qs hRt hRp hRb h j hjt hjp hjb
+
+/-- regression: 3 steps × 2 columns with horizon weights used to raise ValueError; now one value per column -/
+example : geometricMeanRelativeAbsoluteError EPS [[1, 2, 3], [2, 3, 4]] [[3/2, 5/2, 2], [2, 2, 5]]
+    [[2, 1, 4], [0, 0, 1]] (some [1, 1, 2]) .raw = .ok (.raw 4 [1/4, EPS / 27]) := by decide +kernel
 
 /-- The four scaled errors and the relative loss with `raw_values`: the j-th value is the metric of column j alone
 (y_train[:, j] resp. benchmark[:, j] included). -/
@@ -502,59 +509,41 @@ theorem scaled_not_scale_invariant_when_clamped :
       = .ok (.raw 1 [9007199254740992]) := by
   decide +kernel
 
-/-! ## 8. Where the code departs from the property (known findings; the model keeps the code's behaviour) -/
+/-! ## 8. Geometric means = textbook (weighted) geometric mean of the floored relative errors -/
 
-/-- FULL STATEMENT: MdAPE with horizon weights is the weighted median of |percentage errors of (y_true, y_pred)|.
-Proved for `symmetric=True` or no weights only (`_partial`): the weighted branch of the code passes (y_pred, y_true). -/
-theorem mdape_weighted_partial (eps : Rat) (yt yp : Mat) (hw : Option (List Rat)) (mo : MO) (sym : Bool) (out : Out)
-    (hx : hw = none ∨ sym = true) (h : medianAbsolutePercentageError eps yt yp hw mo sym = .ok out) :
-    out.qs = List.zipWith (fun t p => medianW hw ((pctCol eps sym t p).map absR)) yt yp := by
-  rw [(finish_ok (mdape_iff.mp h).2.2).1]
-  congr 1; funext t p
-  unfold mdapeCol
-  rcases hx with rfl | rfl
-  · rfl
-  · cases hw with
-    | none => rfl
-    | some w => simp only [medianW]; rw [pctCol_sym_swap]
-
-/-- negation at the witness y_true=[1,2,3,4], y_pred=[3/2,2,2,5], w=[1,1,1,1], symmetric=False:
-the code returns 1/5, the weighted median of |a−f|/|a| is 1/4 -/
-theorem mdape_weighted_swapped_witness :
-    medianAbsolutePercentageError EPS [[1, 2, 3, 4]] [[3/2, 2, 2, 5]] (some [1, 1, 1, 1]) .raw false
-      = .ok (.raw 1 [1/5]) ∧
-    medianW (some [1, 1, 1, 1]) ((pctCol EPS false [1, 2, 3, 4] [3/2, 2, 2, 5]).map absR) = 1/4 := by
-  decide +kernel
-
-/-- FULL STATEMENT: GMRAE / GMRSE = (weighted) geometric mean over the horizon of the floored relative errors, one
-value per output column.  Proved without horizon weights (`_partial`): radicand = product over the n steps of
-floor(|rel. error|) (resp. its square), root degree n (2n with `square_root`). -/
-theorem gm_eq_spec_partial (eps : Rat) (yt yp yb : Mat) (mo : MO) (sqrt : Bool) (out : Out) :
-    (geometricMeanRelativeAbsoluteError eps yt yp yb none mo = .ok out →
-      out.deg = nrows yt ∧
-      out.qs = relCols eps (fun re => prod (re.map (fun e => floorEps eps (absR e)))) yt yp yb) ∧
-    (geometricMeanRelativeSquaredError eps yt yp yb none mo sqrt = .ok out →
-      out.deg = rootDeg sqrt (nrows yt) ∧
-      out.qs = relCols eps (fun re => prod (re.map (fun e => floorEps eps (sqr e)))) yt yp yb) := by
+/-- GMRAE / GMRSE, per output column: the radicand is `Π_i x_i` (no weights) resp. `Π_i x_i ^ a_i` (horizon weights) over
+the floored values `x_i = floor(|rel. error_i|)` resp. `floor(rel. error_i²)`, under a root of degree `n` resp. `Σ a_i`
+(doubled by `square_root`) — i.e. `exp(Σ w_i ln x_i / Σ w_i)`, see `gm_weighted_exponents`.  One value per column.
+(Full strength since fix 11fa5f6; the model's domain is weights ≥ 0.) -/
+theorem gm_eq_spec (eps : Rat) (yt yp yb : Mat) (hw : Option (List Rat)) (mo : MO) (sqrt : Bool) (out : Out) :
+    (geometricMeanRelativeAbsoluteError eps yt yp yb hw mo = .ok out →
+      out.deg = gmDeg (nrows yt) hw ∧
+      out.qs = relCols eps (fun re => gmFactor hw (re.map (fun e => floorEps eps (absR e)))) yt yp yb) ∧
+    (geometricMeanRelativeSquaredError eps yt yp yb hw mo sqrt = .ok out →
+      out.deg = rootDeg sqrt (gmDeg (nrows yt) hw) ∧
+      out.qs = relCols eps (fun re => gmFactor hw (re.map (fun e => floorEps eps (sqr e)))) yt yp yb) := by
   constructor
   · intro h
-    obtain ⟨_, _, _, kq, h1, h2⟩ := gmrae_iff.mp h
-    rw [gmCols_none] at h1; cases h1
+    have h2 := (gmrae_iff.mp h).2.2.2.2.2
     exact ⟨(finish_ok h2).2, (finish_ok h2).1⟩
   · intro h
-    obtain ⟨_, _, _, kq, h1, h2⟩ := gmrse_iff.mp h
-    rw [gmCols_none] at h1; cases h1
+    have h2 := (gmrse_iff.mp h).2.2.2.2.2
     exact ⟨(finish_ok h2).2, (finish_ok h2).1⟩
 
-/-- … and for a univariate series whose benchmark stays at least eps away from the truth, the factors are the floored
-textbook relative errors: the reported g satisfies g^n = Π floor(|(a−f)/(a−f*)|). -/
-theorem gmrae_univariate_eq_spec_partial (eps : Rat) (t p b : Col) (mo : MO) (out : Out)
+/-- the integer exponents are proportional to the weights: `a_i = w_i · D` with `D` the common denominator, so
+`(Π x_i^(a_i))^(1/Σa)` is the weighted geometric mean `Π x_i^(w_i/Σw)` -/
+theorem gm_weighted_exponents (ws : List Rat) (hw : ∀ x ∈ ws, 0 ≤ x) :
+    (exps ws).map (Nat.cast : Nat → Rat) = ws.map (fun x => x * (commonDen ws : Rat)) :=
+  exps_proportional ws hw
+
+/-- for a univariate series whose benchmark stays at least eps away from the truth, the factors are the floored
+textbook relative errors: the reported g satisfies g^d = Π floor(|(a−f)/(a−f*)|)^(a_i) (a_i = 1, d = n without weights). -/
+theorem gmrae_univariate_eq_spec (eps : Rat) (t p b : Col) (hw : Option (List Rat)) (mo : MO) (out : Out)
     (hg : ∀ x ∈ List.zipWith (fun a g => |a - g|) t b, eps ≤ x)
-    (h : geometricMeanRelativeAbsoluteError eps [t] [p] [b] none mo = .ok out) :
-    out.deg = t.length ∧
-    out.qs = [prod ((Spec.Metrics.relErr t p b).map (fun e => floorEps eps |e|))] := by
-  obtain ⟨_, _, _, kq, h1, h2⟩ := gmrae_iff.mp h
-  rw [gmCols_none] at h1; cases h1
+    (h : geometricMeanRelativeAbsoluteError eps [t] [p] [b] hw mo = .ok out) :
+    out.deg = gmDeg t.length hw ∧
+    out.qs = [gmFactor hw ((Spec.Metrics.relErr t p b).map (fun e => floorEps eps |e|))] := by
+  have h2 := (gmrae_iff.mp h).2.2.2.2.2
   refine ⟨(finish_ok h2).2, ?_⟩
   rw [(finish_ok h2).1]
   simp only [relCols]
@@ -564,16 +553,9 @@ theorem gmrae_univariate_eq_spec_partial (eps : Rat) (t p b : Col) (mo : MO) (ou
   intro e _
   rw [absR_eq_abs]
 
-/-- negation with horizon weights (numpy broadcasts the (n,) weights against the (n,k) log-errors along the column
-axis): a univariate series yields n values instead of 1; 3 steps × 2 columns raise ValueError; and at a perfect
-forecast the result is not the EPS floor (radicands EPS², EPS⁶ under a 4th root instead of EPS⁴). -/
-theorem gm_weighted_violated :
-    geometricMeanRelativeAbsoluteError EPS [[1, 2, 3, 4]] [[3/2, 5/2, 2, 5]] [[2, 1, 4, 6]] (some [1, 2, 3, 2]) .raw
-      = .ok (.raw 8 [1/8, 1/64, 1/512, 1/64]) ∧
-    geometricMeanRelativeAbsoluteError EPS [[1, 2, 3], [2, 3, 4]] [[3/2, 5/2, 2], [2, 2, 5]] [[2, 1, 4], [0, 0, 1]]
-      (some [1, 1, 1]) .uniform = .error .value ∧
-    geometricMeanRelativeAbsoluteError EPS [[1, 2]] [[1, 2]] [[0, 0]] (some [1, 3]) .uniform
-      = .ok (.avg 4 none [EPS ^ 2, EPS ^ 6]) := by
-  decide +kernel
+/-- regression of the former broadcasting defect (univariate, w=[1,2,3,2]): one value, (1/32)^(1/8) = 0.6484…, where
+the code used to return four values -/
+example : geometricMeanRelativeAbsoluteError EPS [[1, 2, 3, 4]] [[3/2, 5/2, 2, 5]] [[2, 1, 4, 6]] (some [1, 2, 3, 2]) .raw
+    = .ok (.raw 8 [1/32]) := by decide +kernel
 
 end SkVerif.C06
